@@ -26,7 +26,7 @@ func TestMain(m *testing.M) {
 // TestReplay re-runs the oracle of a saved failing case without rapid.
 func TestReplay(t *testing.T) { props.ReplayMain(t, *replayFile) }
 
-const ruleC19 = "histories of actions (commit good / bad with or without author e-mail, undisturbed run, run killed with SIGKILL " +
+const ruleC19 = "histories of actions (commit good / bad with or without author e-mail, undisturbed run, run whose script alone is killed while the compiler works and a second run started at once, run killed with SIGKILL " +
 	"before the k-th simple command, 2-3 simultaneous invocations, removal of 'current') against the unmodified bin/newpolicy.sh, " +
 	"each followed by one final undisturbed run; non-trivial = the history contains a kill at a position the run actually reached, " +
 	"or a bad commit followed by a good one, or simultaneous invocations; distinct = the JSON of the history"
@@ -36,7 +36,7 @@ func genHistory(rt *rapid.T, maxLen int) []Action {
 	n := rapid.IntRange(1, maxLen).Draw(rt, "len")
 	kinds := []string{
 		"good", "good", "good", "good", "bad-email", "bad-email", "bad-noemail",
-		"run", "run", "run", "kill", "kill", "kill", "kill", "kill", "conc", "conc", "rmcurrent",
+		"run", "run", "run", "kill", "kill", "kill", "kill", "kill", "conc", "conc", "rmcurrent", "killcompile",
 	}
 	var h []Action
 	for len(h) < n {
@@ -62,6 +62,12 @@ func genHistory(rt *rapid.T, maxLen int) []Action {
 				k = rapid.IntRange(1, 80).Draw(rt, "k")
 			}
 			h = append(h, Action{Op: "kill", K: k})
+		case "killcompile":
+			// only interesting when there is something to compile
+			if len(h) == 0 || h[len(h)-1].Op != "commit" {
+				h = append(h, Action{Op: "commit"})
+			}
+			h = append(h, Action{Op: "killcompile"})
 		case "conc":
 			h = append(h, Action{Op: "conc",
 				N:         rapid.IntRange(2, 3).Draw(rt, "n"),
